@@ -19,12 +19,16 @@ type GenCfg struct {
 	Wide          bool // occasionally give one element 33-40 children (size thresholds)
 	Undeclare     bool // allow xmlns="" (an unprefixed, no-namespace element below a default namespace)
 	XMLEverywhere bool // emit the xml binding on every element (as the XML adapter does)
+	stressWide    bool // (WideDoc)
+	Stress        bool // one case in 100 is a size-stress document: a chain 33-130 elements deep or 65-257 bindings in scope (WideDoc: 257-2049 siblings)
 	Names         []string
 	Values        []string
 }
 
 var DefaultNames = []string{"a", "b", "c", "a", "b", "d", "child", "self", "text", "node", "comment", "ancestor", "a-b", "a.b", "a1", "é",
-	"parent-id", "child-x", "self.x", "text1", "node-a", "div-a", "or1", "and-c", "mod.d", "descendant-or-self-x", "processing-instruction-y", "preceding-", "a--b", "following.sibling"}
+	"parent-id", "child-x", "self.x", "text1", "node-a", "div-a", "or1", "and-c", "mod.d", "descendant-or-self-x", "processing-instruction-y", "preceding-", "a--b", "following.sibling",
+	// names that read like numbers to a careless parser
+	"nan", "inf", "Infinity", "NaN", "e1", "x10"}
 var DefaultValues = []string{"", "1", "2", "3", "10", "9", " 12 ", "1e3", "+1", "-0", "-5", "NaN", "Infinity", "0x10", ".5", "5.", "abc", "b", "é€", "x y", "2.5", "007", "-2.50", "\t4\n"}
 var NumericValues = []string{"1", "2", "3", "10", "9", "2.5", "-1", "0", "100", "0.5", " 7 ", "abc", ""}
 
@@ -82,6 +86,9 @@ func Gen(t *rapid.T, cfg GenCfg) []Event {
 	}
 	if cfg.Names == nil {
 		cfg.Names = DefaultNames
+	}
+	if cfg.Stress && rapid.IntRange(0, 99).Draw(t, "stressDocument") == 0 {
+		return genStress(t, cfg)
 	}
 	g := &gen{t: t, cfg: cfg, max: 40}
 	if cfg.AllowBig && rapid.IntRange(0, 3).Draw(t, "bigDocument") == 0 {
@@ -150,6 +157,10 @@ func (g *gen) element(parent *Node, depth int, scope []binding, top bool) *Node 
 		if !g.cfg.NoNS || g.cfg.XMLEverywhere {
 			n.Decls = append(n.Decls, Event{K: "N", Local: "xml", Value: XMLNS})
 		}
+	}
+	if len(n.Decls) == 1 && n.Decls[0].Local == "xml" && !g.cfg.XMLSafe && rapid.IntRange(0, 9).Draw(g.t, "xmlAgain") == 0 {
+		// the xml prefix declared a second time on the same element: still one namespace node
+		n.Decls = append(n.Decls, Event{K: "N", Local: "xml", Value: XMLNS})
 	}
 	if !g.cfg.NoNS {
 		nd := rapid.IntRange(0, 6).Draw(g.t, "nDecls") - 3
@@ -323,4 +334,132 @@ func (g *gen) element(parent *Node, depth int, scope []binding, top bool) *Node 
 		}
 	}
 	return n
+}
+
+// genStress draws a document whose SIZE is the point: nesting far beyond
+// any inline buffer, sibling counts beyond chunk sizes, more bindings in
+// scope than a machine word has bits.  Everything else is plain.
+func genStress(t *rapid.T, cfg GenCfg) []Event {
+	name := func(label string) string { return cfg.Names[rapid.IntRange(0, len(cfg.Names)-1).Draw(t, label)] }
+	val := func(i int) string { return []string{"1", "2", "5", "10", "x", "2.5"}[i%6] }
+	var ev []Event
+	xml := func() {
+		if cfg.XMLEverywhere {
+			ev = append(ev, Event{K: "N", Local: "xml", Value: XMLNS})
+		}
+	}
+	kind := rapid.IntRange(0, 1).Draw(t, "stressKind") * 2 // deep chains and many bindings; very wide documents only where asked for (WideDoc)
+	if cfg.stressWide {
+		kind = 1
+	}
+	switch kind {
+	case 0:
+		// a deep chain with text on several levels and at the bottom
+		depth := []int{33, 64, 65, 66, 70, 100, 130}[rapid.IntRange(0, 6).Draw(t, "stressDepth")]
+		for i := 0; i < depth; i++ {
+			ev = append(ev, Event{K: "S", Local: name("deepName")})
+			if i == 0 || cfg.XMLEverywhere {
+				if !cfg.NoNS || cfg.XMLEverywhere {
+					ev = append(ev, Event{K: "N", Local: "xml", Value: XMLNS})
+				}
+			}
+			if i == 0 && !cfg.NoNS {
+				ev = append(ev, Event{K: "A", Space: XMLNS, Local: "lang", Prefix: "xml", Value: "en"})
+			}
+			if i%50 == 7 {
+				ev = append(ev, Event{K: "A", Local: "id", Value: val(i)})
+			}
+		}
+		ev = append(ev, Event{K: "T", Value: "5"})
+		for i := depth - 1; i >= 0; i-- {
+			ev = append(ev, Event{K: "E"})
+			if i%40 == 3 && i > 0 {
+				ev = append(ev, Event{K: "S", Local: name("sideName")})
+				xml()
+				ev = append(ev, Event{K: "T", Value: val(i)}, Event{K: "E"})
+			}
+		}
+	case 1:
+		// very many siblings
+		n := []int{257, 1023, 1024, 1025, 1027, 1030, 2049}[rapid.IntRange(0, 6).Draw(t, "stressWidth")]
+		ev = append(ev, Event{K: "S", Local: name("wideRoot")})
+		if !cfg.NoNS || cfg.XMLEverywhere {
+			ev = append(ev, Event{K: "N", Local: "xml", Value: XMLNS})
+		}
+		kid := name("wideKid")
+		for i := 0; i < n; i++ {
+			ev = append(ev, Event{K: "S", Local: kid})
+			xml()
+			v := val(i)
+			if i >= n-3 {
+				v = []string{"7", "x", "1000"}[n-1-i] // the last ones matter
+			}
+			ev = append(ev, Event{K: "T", Value: v}, Event{K: "E"})
+		}
+		ev = append(ev, Event{K: "E"})
+	default:
+		// more bindings in scope than bits in a word (or values in a byte), and overrides of late ones
+		n := []int{65, 66, 70, 130, 256, 257}[rapid.IntRange(0, 5).Draw(t, "stressBindings")]
+		if cfg.NoNS {
+			n = 0
+		}
+		ev = append(ev, Event{K: "S", Local: name("nsRoot")})
+		if n > 0 {
+			ev[len(ev)-1].Space = "urn:x" // it declares the default namespace itself
+		}
+		if !cfg.NoNS || cfg.XMLEverywhere {
+			ev = append(ev, Event{K: "N", Local: "xml", Value: XMLNS})
+		}
+		for i := 0; i < n; i++ {
+			ev = append(ev, Event{K: "N", Local: "s" + itoa(i), Value: "urn:s" + itoa(i)})
+		}
+		if n > 0 {
+			ev = append(ev, Event{K: "N", Local: "", Value: "urn:x"})
+		}
+		for k := 0; k < 3; k++ {
+			child := Event{K: "S", Local: name("nsKid")}
+			if n > 0 && k != 1 {
+				child.Space = "urn:x"
+			}
+			ev = append(ev, child)
+			xml()
+			if n > 0 {
+				// override an early and a late binding; undeclare the default namespace on the middle child
+				ev = append(ev, Event{K: "N", Local: "s3", Value: "urn:over"}, Event{K: "N", Local: "s" + itoa(n-1-k), Value: "urn:late"})
+				if k == 1 {
+					ev = append(ev, Event{K: "N", Local: "", Value: ""})
+				}
+			}
+			ev = append(ev, Event{K: "S", Local: name("nsGrandKid")})
+			if n > 0 && k != 1 {
+				ev[len(ev)-1].Space = "urn:x"
+			}
+			xml()
+			ev = append(ev, Event{K: "T", Value: val(k)}, Event{K: "E"}, Event{K: "E"})
+		}
+		ev = append(ev, Event{K: "E"})
+	}
+	return ev
+}
+
+func itoa(i int) string {
+	if i == 0 {
+		return "0"
+	}
+	var b []byte
+	for ; i > 0; i /= 10 {
+		b = append([]byte{byte('0' + i%10)}, b...)
+	}
+	return string(b)
+}
+
+// WideDoc draws a document with 257-2049 sibling elements (chunk sizes,
+// parallel thresholds, per-sibling bookkeeping), for checks whose
+// expressions stay cheap on it.
+func WideDoc(t *rapid.T, cfg GenCfg) []Event {
+	if cfg.Names == nil {
+		cfg.Names = DefaultNames
+	}
+	cfg.stressWide = true
+	return genStress(t, cfg)
 }
